@@ -67,6 +67,7 @@ def gen_world(rng, i, tier):
                 lw["read"]["opts"]["extra"] = rng.pick([[], [], ["JOIN_SAME_ENTRIES=1"], ["JOIN_SAME_ENTRIES=1"]])
     # the caller's callback may itself read a configuration through the library (an allow-list) before it answers
     w["nested"] = rng.chance(0.25)
+    w["repeat_under_budget"] = rng.chance(0.12)
     # earlier reads of the same process: other files, other delimiter classes (the arguments live in reused buffers)
     w["stale"] = rng.pick([[], ["good"], ["bad"], ["good", "bad"], ["bad", "good"], ["good:blank"], ["good:mixed", "bad"], ["good:none"], ["bad", "good:blank"]])
     return w
@@ -162,6 +163,19 @@ def plan_for(world, positions):
     ops += gen.layered_read_ops(read, cb=cb, init=world["init"])
     ops.append({"op": "errLocation", "tag": "loc"})
     ops.append({"op": "errLocation", "tag": "loc_again"})      # asking twice gives the same answer
+    if world.get("repeat_under_budget"):
+        # a daemon that re-reads a still-broken configuration on every reload: with only a few spare descriptors, the
+        # tenth failure is reported like the first
+        ops.append({"op": "fd_budget", "extra": 8, "tag": "budget"})
+        for _ in range(12):
+            for o_ in gen.layered_read_ops(read, cb=cb, init=world["init"]):
+                o_ = dict(o_)
+                if o_.get("tag") == "read":
+                    o_["tag"] = "read_rep"
+                else:
+                    o_.pop("tag", None)
+                ops.append(o_)
+            ops.append({"op": "errLocation", "tag": "loc_rep"})
     ops.append({"op": "readFile", "o": 8, "path": "$ROOT/nosuch/file.conf", "delim": D, "comment": C, "tag": "missing"})
     # missing in another way: a path component is a regular file (ENOTDIR), the name is too long for the file system
     ops.append({"op": "readFile", "o": 8, "path": "$ROOT/stale/good.conf/child.conf", "delim": D, "comment": C, "tag": "missing"})
@@ -213,6 +227,15 @@ def check(world, plans, results):
             continue
         if norm(loc.get("file") or "") != tpath or loc.get("line") != line:
             v.fail("location", "plan %d: %s at line %d of %s: econf_errLocation says %r line %r" % (k, kind, line, tpath, loc.get("file"), loc.get("line")))
+        from .base import all_tagged as _all
+        reps = _all(plan, res, "read_rep")
+        if reps:
+            v.probe("failing_read_repeated_under_a_descriptor_budget")
+            locs = _all(plan, res, "loc_rep")
+            for n_, (rr_, ll_) in enumerate(zip(reps, locs)):
+                if rr_["rc"] != rd["rc"] or norm(ll_.get("file") or "") != norm(loc.get("file") or "") or ll_.get("line") != loc.get("line"):
+                    v.fail("repeat", "plan %d: the same failing read, repeated (%d. time, few spare descriptors), reports code %r at %r:%r instead of %r at %r:%r" % (k, n_ + 2, rr_["rc"], ll_.get("file"), ll_.get("line"), rd["rc"], loc.get("file"), loc.get("line")))
+                    break
         loc2 = tagged(plan, res, "loc_again")
         if loc2 is not None and (norm(loc2.get("file") or "") != norm(loc.get("file") or "") or loc2.get("line") != loc.get("line")):
             v.fail("location:again", "plan %d: econf_errLocation answered %r line %r, asked again %r line %r" % (k, loc.get("file"), loc.get("line"), loc2.get("file"), loc2.get("line")))
